@@ -441,12 +441,72 @@ Proof.
   rewrite skipn_app. replace (n0 - length a)%nat with O by lia. simpl. rewrite !pend_app, Hi. reflexivity.
 Qed.
 
+(* ---------- the multi-name register / unregister programs and the metric constructor (construct_prog) ---------- *)
+(* the instructions these programs consist of: lock operations, look-ups, jumps, the duplicate / unknown-collector raise,
+   and writes to the two registry tables (numbered below 2) *)
+Definition regshape (i : instr) : Prop :=
+  match i with
+  | Acq _ | Rel _ | Raise | TblLookup _ _ _ | JmpIf _ _ _ => True
+  | TblInsert tb _ _ | TblDel tb _ => tb < 2
+  | _ => False
+  end.
+Lemma lockonly_regshape l : lockonly l -> Forall regshape l.
+Proof. intro H. eapply Forall_impl; [|exact H]. intros i; destruct i; simpl; auto; contradiction. Qed.
+Lemma dupcheck_cons rb k ks tail :
+  dupcheck_prog rb (k :: ks) ++ tail = TblLookup rb RN k :: JmpIf false rb 1 :: Raise :: dupcheck_prog rb ks ++ tail.
+Proof. reflexivity. Qed.
+Lemma regshape_dupcheck rb ks : Forall regshape (dupcheck_prog rb ks).
+Proof. induction ks as [|k ks IH]; [constructor|]. rewrite <- (app_nil_r (dupcheck_prog rb (k :: ks))), dupcheck_cons, app_nil_r.
+  repeat (constructor; [exact I|]). exact IH. Qed.
+Lemma regshape_register rb c ks : Forall regshape (register_names_prog rb c ks).
+Proof.
+  unfold register_names_prog. constructor; [exact I|].
+  apply Forall_app; split; [apply regshape_dupcheck|]. apply Forall_app; split.
+  - apply Forall_forall. intros i Hi. apply in_map_iff in Hi. destruct Hi as (k & <- & _). unfold RN. simpl. lia.
+  - repeat constructor; unfold RC; simpl; lia.
+Qed.
+Lemma regshape_unregister rb c ks : Forall regshape (unregister_names_prog rb c ks).
+Proof.
+  unfold unregister_names_prog. repeat (constructor; [exact I|]).
+  apply Forall_app; split.
+  - apply Forall_forall. intros i Hi. apply in_map_iff in Hi. destruct Hi as (k & <- & _). unfold RN. simpl. lia.
+  - repeat constructor; unfold RC, RN; simpl; lia.
+Qed.
+Lemma regshape_construct mp rb c ks nc : Forall regshape (construct_prog mp rb c ks nc).
+Proof. apply Forall_app; split; [apply lockonly_regshape, ctor_lockonly|apply regshape_register]. Qed.
+Lemma regshape_nostore n l : Forall regshape l -> nostore n l.
+Proof. intro H. eapply Forall_impl; [|exact H]. intros i; destruct i; simpl; auto; contradiction. Qed.
+Lemma jumps_in_dupcheck rb ks : forall X, jumps_in X -> jumps_in (dupcheck_prog rb ks ++ X).
+Proof.
+  induction ks as [|k ks IH]; intros X HX; [exact HX|]. rewrite dupcheck_cons.
+  cbn [jumps_in length]. split; [lia|]. apply IH. exact HX.
+Qed.
+Lemma jumps_in_nojump l : Forall (fun i => match i with JmpIf _ _ _ => False | _ => True end) l -> jumps_in l.
+Proof. induction 1 as [|i l Hi _ IH]; simpl; auto. destruct i; auto; contradiction. Qed.
+Lemma jumps_in_register rb c ks : jumps_in (register_names_prog rb c ks).
+Proof.
+  unfold register_names_prog. cbn [jumps_in]. apply jumps_in_dupcheck. apply jumps_in_nojump.
+  apply Forall_app; split; [|repeat constructor].
+  apply Forall_forall. intros i Hi. apply in_map_iff in Hi. destruct Hi as (k & <- & _). exact I.
+Qed.
+Lemma jumps_in_unregister rb c ks : jumps_in (unregister_names_prog rb c ks).
+Proof.
+  unfold unregister_names_prog. cbn [jumps_in length]. split; [rewrite app_length; simpl; lia|].
+  apply jumps_in_nojump. apply Forall_app; split; [|repeat constructor].
+  apply Forall_forall. intros i Hi. apply in_map_iff in Hi. destruct Hi as (k & <- & _). exact I.
+Qed.
+Lemma jumps_in_construct mp rb c ks nc : jumps_in (construct_prog mp rb c ks nc).
+Proof. apply jumps_in_lockonly; [apply ctor_lockonly|apply jumps_in_register]. Qed.
+Lemma acc_ok_nostore n l : nostore n l -> jumps_in l -> acc_ok n l.
+Proof. intros H1 H2. rewrite <- (app_nil_r l). apply acc_ok_body; [exact H1|exact H2|exact I]. Qed.
+
 Definition issued_stat (n : N) (o : op) : Z :=
   match o with OInc (SLoc m) a => if N.eqb m n then a else 0%Z | _ => 0%Z end.
 Definition no_set (n : N) (o : op) : Prop := match o with OSet (SLoc m) _ => m <> n | _ => True end.
 Definition untouched (n : N) (o : op) : Prop :=
   match o with OSet (SLoc m) _ | OInc (SLoc m) _ => m <> n | _ => True end.
-Definition nonraising (o : op) : Prop := match o with ORegister _ | OUnregister _ => False | _ => True end.
+Definition nonraising (o : op) : Prop :=
+  match o with ORegister _ | OUnregister _ | OConstruct _ _ _ | OUnregisterN _ _ => False | _ => True end.
 
 Ltac opgo := cbn -[N.add N.ltb N.eqb]; repeat split; auto; try discriminate.
 
@@ -460,6 +520,8 @@ Proof.
     cbn -[N.add N.ltb N.eqb ctor_prog]. apply pend_lockonly, ctor_lockonly.
   - unfold compile_op. rewrite labels_unfold.
     cbn -[N.add N.ltb N.eqb ctor_prog]. rewrite pend_lockonly by apply ctor_lockonly. reflexivity.
+  - apply nostore_pend, regshape_nostore, regshape_construct.
+  - apply nostore_pend, regshape_nostore, regshape_unregister.
 Qed.
 
 Lemma op_jumps_in mp rb o : jumps_in (compile_op mp rb o).
@@ -472,6 +534,8 @@ Proof.
   - unfold compile_op. rewrite labels_unfold.
     cbn -[N.add N.ltb N.eqb ctor_prog]. split; [rewrite app_length; simpl; lia|].
     apply jumps_in_lockonly; [apply ctor_lockonly|exact I].
+  - apply jumps_in_construct.
+  - apply jumps_in_unregister.
 Qed.
 
 Lemma op_acc_ok mp n rb o : no_set n o -> acc_ok n (compile_op mp rb o).
@@ -487,6 +551,8 @@ Proof.
     cbn -[N.add N.ltb N.eqb ctor_prog skipn Nat.add]. repeat split; auto.
     + rewrite skipn_over2. rewrite pend_lockonly by apply ctor_lockonly. reflexivity.
     + apply acc_ok_lockonly; [apply ctor_lockonly|]. simpl; repeat split; auto.
+  - apply acc_ok_nostore; [apply regshape_nostore, regshape_construct|apply jumps_in_construct].
+  - apply acc_ok_nostore; [apply regshape_nostore, regshape_unregister|apply jumps_in_unregister].
 Qed.
 
 Lemma op_noraise mp rb o : nonraising o -> noraise (compile_op mp rb o).
@@ -513,6 +579,8 @@ Proof.
   - unfold compile_op. rewrite labels_unfold.
     repeat (constructor; [exact I|]). apply Forall_app; split; [apply nostore_lockonly, ctor_lockonly|].
     repeat constructor.
+  - apply regshape_nostore, regshape_construct.
+  - apply regshape_nostore, regshape_unregister.
 Qed.
 
 Definition issued_stat_ops (n : N) (ops : list op) : Z := zsum (map (issued_stat n) ops).
@@ -674,6 +742,63 @@ Proof.
   - eapply wf_mono; [apply Hsuf|lia].
 Qed.
 
+(* the multi-name register / unregister programs and the constructor pass the discipline check, for EVERY list of
+   names and every number of value objects, in both back-ends *)
+Lemma wf_dupcheck mp rb : forall ks f ms tail,
+  (forall ms', wf (lib_disc mp) f [SLock R_LOCK] None ms' tail = true) ->
+  wf (lib_disc mp) (3 * length ks + f) [SLock R_LOCK] None ms (dupcheck_prog rb ks ++ tail) = true.
+Proof.
+  induction ks as [|k ks IH]; intros f ms tail Ht; [apply Ht|].
+  cbn [length]. replace (3 * S (length ks) + f)%nat with (S (S (S (3 * length ks + f)))) by lia.
+  rewrite dupcheck_cons, wf_Lookup, wf_JmpIf. unfold RN, R_LOCK. wfr. cbn [N.ltb N.compare Pos.compare Pos.compare_cont N.eqb Pos.eqb].
+  rewrite N.eqb_refl. wfr.
+  apply andb_true_intro; split; [reflexivity|].
+  cbn [skipn]. eapply wf_mono; [apply IH; exact Ht|lia].
+Qed.
+Lemma wf_rn_writes mp (g : key -> instr) :
+  (forall k, exists v, g k = TblInsert RN k v) \/ (forall k, g k = TblDel RN k) ->
+  forall ks f ms tail,
+  (forall ms', wf (lib_disc mp) f [SLock R_LOCK] None ms' tail = true) ->
+  wf (lib_disc mp) (length ks + f) [SLock R_LOCK] None ms (map g ks ++ tail) = true.
+Proof.
+  intros Hg. induction ks as [|k ks IH]; intros f ms tail Ht; [apply Ht|].
+  cbn [length map app Nat.add]. destruct Hg as [Hg|Hg].
+  - destruct (Hg k) as [v ->]. rewrite wf_Insert. unfold RN, R_LOCK. wfr.
+    cbn [N.ltb N.compare Pos.compare Pos.compare_cont N.eqb Pos.eqb]. wfr. apply IH. exact Ht.
+  - rewrite (Hg k). unfold RN, R_LOCK. cbn [wf]. wfr.
+    cbn [N.ltb N.compare Pos.compare Pos.compare_cont N.eqb Pos.eqb]. wfr. apply IH. exact Ht.
+Qed.
+Lemma wf_register_names mp rb c ks f tail : wf (lib_disc mp) f [] None MNone tail = true ->
+  wf (lib_disc mp) (S (3 * length ks + (length ks + (3 + f)))) [] None MNone (register_names_prog rb c ks ++ tail) = true.
+Proof.
+  intro Ht. unfold register_names_prog. cbn [app]. rewrite wf_Acq. unfold R_LOCK at 1 2. wfr.
+  rewrite <- app_assoc. apply wf_dupcheck. intro ms1.
+  rewrite <- app_assoc. apply wf_rn_writes; [left; intro k; eexists; reflexivity|]. intro ms2.
+  cbn [app Nat.add]. rewrite wf_Lookup, wf_Insert. unfold RC, R_LOCK. cbn [wf]. wfr.
+  cbn [N.ltb N.compare Pos.compare Pos.compare_cont N.eqb Pos.eqb]. wfr. exact Ht.
+Qed.
+Lemma wf_unregister_names mp rb c ks : lib_disciplined mp (unregister_names_prog rb c ks).
+Proof.
+  exists (S (S (S (S (length ks + 3)))))%nat. unfold unregister_names_prog.
+  rewrite wf_Acq, wf_Lookup, wf_JmpIf. unfold RC, R_LOCK. wfr.
+  cbn [N.ltb N.compare Pos.compare Pos.compare_cont N.eqb Pos.eqb]. rewrite N.eqb_refl. wfr.
+  apply andb_true_intro; split; [reflexivity|]. cbn [skipn].
+  eapply wf_mono; [|apply Nat.le_succ_diag_r].
+  apply wf_rn_writes; [right; intro k; reflexivity|]. intro ms'.
+  unfold RC, RN, R_LOCK. cbn [wf]. wfr. unfold R_LOCK. cbn [N.ltb N.compare Pos.compare Pos.compare_cont N.eqb Pos.eqb]. wfr.
+  destruct ms' as [|r tb k|tb k]; cbn [tkill ms_keep]; try reflexivity.
+  - destruct (0 =? tb); cbn [ms_keep tguard mem_kref]; reflexivity.
+  - destruct (0 =? tb); cbn [ms_keep tguard mem_kref]; reflexivity.
+Qed.
+Lemma wf_construct mp rb c ks nc : lib_disciplined mp (construct_prog mp rb c ks nc).
+Proof.
+  unfold construct_prog. rewrite <- (app_nil_r (register_names_prog rb c ks)).
+  destruct mp.
+  - eexists. apply wf_ctor_true; [reflexivity|reflexivity|reflexivity|reflexivity|].
+    apply (wf_register_names true rb c ks 1 []). reflexivity.
+  - rewrite ctor_false. eexists. apply (wf_register_names false rb c ks 1 []). reflexivity.
+Qed.
+
 Definition simple_op_w (rb : reg) (o : op) : Prop :=
   match o with
   | OInc (SLoc _) _ | OSet (SLoc _) _ | OGet (SLoc _) _ _ => True
@@ -681,6 +806,7 @@ Definition simple_op_w (rb : reg) (o : op) : Prop :=
   | OLabels tb _ _ | OLabelsInc tb _ _ _ _ => tb < 40
   | ORemove tb _ | OClear tb | OMulti tb _ => tb < 40
   | ORegister _ | OUnregister _ | OLookup _ | OCollect _ => True
+  | OConstruct _ _ _ | OUnregisterN _ _ => True
   | _ => False
   end.
 
@@ -710,6 +836,8 @@ Proof.
     + replace (compile_op false rb (OLabelsInc tb k nc j a)) with (compile_op false rb (OLabelsInc tb k 1 j a)).
       * apply op_disciplined. simpl; auto.
       * unfold compile_op, labels_prog. rewrite !ctor_false. reflexivity.
+  - apply wf_construct.
+  - apply wf_unregister_names.
 Qed.
 
 Lemma simple_op_w_mono rb rb' o : rb <= rb' -> simple_op_w rb o -> simple_op_w rb' o.
@@ -997,6 +1125,8 @@ Definition callfree (o : op) : Prop :=
   match o with OMulti _ _ | OLookup _ | OCollect _ | OCallReg => False | _ => True end.
 Lemma straight_lockonly l : lockonly l -> straight l.
 Proof. induction 1 as [|i l Hi _ IH]; constructor; auto. destruct i; try contradiction; exact I. Qed.
+Lemma regshape_straight l : Forall regshape l -> straight l.
+Proof. intro H. eapply Forall_impl; [|exact H]. intros i; destruct i; simpl; auto. Qed.
 Lemma op_straight mp rb o : callfree o -> straight (compile_op mp rb o).
 Proof.
   intro H. destruct o; try contradiction; try (repeat constructor; fail).
@@ -1007,6 +1137,8 @@ Proof.
   - unfold compile_op. rewrite labels_unfold.
     repeat (constructor; [exact I|]). apply Forall_app; split; [apply straight_lockonly, ctor_lockonly|].
     repeat constructor.
+  - apply regshape_straight, regshape_construct.
+  - apply regshape_straight, regshape_unregister.
 Qed.
 Lemma from_straight mp ops : forall rb, Forall callfree ops -> straight (compile_from mp rb ops).
 Proof.
